@@ -2,6 +2,7 @@ package checks
 
 import (
 	"fmt"
+	"go/constant"
 	"go/token"
 	"go/types"
 	"strings"
@@ -46,6 +47,86 @@ func (c *Ctx) mentionsGlobal(v ssa.Value, name string) bool {
 	for _, o := range c.origins(v, map[string]bool{"errors.Join": true, "fmt.Errorf": true, "service.newErrMessage": true}, nil) {
 		if o.Kind == "global" && o.Name == name {
 			return true
+		}
+	}
+	return false
+}
+
+// wrapsGlobal: errors.Is(v, <package variable name>) is certainly true: v is the sentinel itself, an errors.Join with a
+// wrapping operand, or a fmt.Errorf whose %w operand wraps it (a %v / %s operand only copies the text).
+func (c *Ctx) wrapsGlobal(v ssa.Value, name string, depth int) bool {
+	if depth > 8 {
+		return false
+	}
+	switch x := v.(type) {
+	case *ssa.MakeInterface:
+		return c.wrapsGlobal(x.X, name, depth+1)
+	case *ssa.ChangeInterface:
+		return c.wrapsGlobal(x.X, name, depth+1)
+	case *ssa.ChangeType:
+		return c.wrapsGlobal(x.X, name, depth+1)
+	case *ssa.UnOp:
+		if g, ok := x.X.(*ssa.Global); ok {
+			return g.Name() == name
+		}
+	case *ssa.Phi:
+		for _, e := range x.Edges {
+			if !c.wrapsGlobal(e, name, depth+1) {
+				return false
+			}
+		}
+		return len(x.Edges) > 0
+	case *ssa.Call:
+		switch calleeName(&x.Call) {
+		case "errors.Join":
+			for _, a := range x.Call.Args {
+				for _, e := range variadicArgs(a) {
+					if c.wrapsGlobal(e, name, depth+1) {
+						return true
+					}
+				}
+			}
+		case "fmt.Errorf":
+			if len(x.Call.Args) != 2 {
+				return false
+			}
+			k, isK := x.Call.Args[0].(*ssa.Const)
+			if !isK || k.Value == nil || k.Value.Kind() != constant.String {
+				return false
+			}
+			ops := variadicArgs(x.Call.Args[1])
+			f := constant.StringVal(k.Value)
+			n := 0
+			for i := 0; i < len(f); i++ {
+				if f[i] != '%' {
+					continue
+				}
+				i++
+				for i < len(f) && strings.IndexByte("+-# 0123456789.", f[i]) >= 0 {
+					i++
+				}
+				if i >= len(f) || f[i] == '%' {
+					continue
+				}
+				if f[i] == 'w' && n < len(ops) && c.wrapsGlobal(ops[n], name, depth+1) {
+					return true
+				}
+				n++
+			}
+		default:
+			// repo helpers returning an error: all returned values wrap
+			if sc := x.Call.StaticCallee(); sc != nil && c.P.IsRepoFunc(sc) && sc.Signature.Results().Len() == 1 {
+				nRet := 0
+				for _, b := range sc.Blocks {
+					if ret, ok := b.Instrs[len(b.Instrs)-1].(*ssa.Return); ok {
+						nRet++
+						if !c.wrapsGlobal(ret.Results[0], name, depth+1) {
+							return false
+						}
+					}
+				}
+				return nRet > 0
+			}
 		}
 	}
 	return false
@@ -317,14 +398,14 @@ func (c *Ctx) sessionRules(full bool) (leaveSync bool) {
 						sentErr := false
 						for _, ins := range okBranch.Instrs {
 							if s, isS := ins.(*ssa.Send); isS {
-								if c.mentionsGlobal(s.X, "_errKeyExist") {
+								if c.wrapsGlobal(s.X, "_errKeyExist", 0) {
 									sentErr = true
 								}
 							}
 						}
 						if !sentErr {
 							ok = false
-							d = "the branch for an existing key does not answer with an error wrapping the key-exists sentinel"
+							d = "the branch for an existing key does not answer with an error that errors.Is recognises as the key-exists sentinel (errors.Join / %w / the sentinel itself): the reader does not recognise the refusal and keeps serving the duplicate connection"
 						}
 					}
 				}
